@@ -69,14 +69,16 @@ def directClasses (e : Elem) : List String :=
   -- change reachability, so all descendant classes are used (as the Python does)
   ((descendants e).filter fun d => isObjectClass d.cls).map fun d => objName d.cls
 
-/-- `orderer(*elements)` on element trees (unique class names assumed, as the Python documents) -/
-def ordererTree (elements : List Elem) : Except OrdErr (List String) :=
+/-- the class graph of element trees: classes in first-occurrence order, each with its descendant classes
+    (each name once: the Python's lists may repeat a name, which changes neither emptiness nor striking) -/
+def treeGraph (elements : List Elem) : ClassGraph :=
   let classes := objectClasses elements
-  let g : ClassGraph :=
-    { order := classes.map fun c => objName c.cls
-      edges := fun n => match classes.find? (fun c => objName c.cls == n) with
-        | some c => directClasses c
-        | none => [] }
-  ordererGraph g
+  { order := classes.map fun c => objName c.cls
+    edges := fun n => match classes.find? (fun c => objName c.cls == n) with
+      | some c => removeDups (directClasses c)
+      | none => [] }
+
+/-- `orderer(*elements)` on element trees (unique class names assumed, as the Python documents) -/
+def ordererTree (elements : List Elem) : Except OrdErr (List String) := ordererGraph (treeGraph elements)
 
 end Statham
